@@ -22,15 +22,18 @@ pub struct LwCfg {
     pub latency: usize,
     /// side s's application calls step() only in every n-th round (a slow peer application); 1 = every round
     pub step_every: [usize; 2],
+    /// scripted loss (not a choice): every frame that carries (a fragment of) the packet submitted by script operation `op` - all its
+    /// fragments or one of them - is lost in rounds before `until`
+    pub kill: Option<(usize, Option<u16>, usize)>,
 }
 
 impl LwCfg {
     pub fn small() -> Self {
-        Self { pwin: 4, fwin: 4, pbase: [0, 77], fbase: [0, 1000], rx_alloc: [1_000_000; 2], bw: [2_000_000; 2], keepalive: Some(5000), latency: 1, step_every: [1, 1] }
+        Self { pwin: 4, fwin: 4, pbase: [0, 77], fbase: [0, 1000], rx_alloc: [1_000_000; 2], bw: [2_000_000; 2], keepalive: Some(5000), latency: 1, step_every: [1, 1], kill: None }
     }
     pub fn name(&self) -> String {
         format!("pw{}fw{}pb{:x}.{:x}fb{:x}.{:x}al{}.{}bw{}.{}ka{}lat{}", self.pwin, self.fwin, self.pbase[0], self.pbase[1], self.fbase[0], self.fbase[1],
-            self.rx_alloc[0], self.rx_alloc[1], self.bw[0], self.bw[1], self.keepalive.map_or(-1, |k| k as i64), self.latency) + &(if self.step_every != [1, 1] { format!("se{}.{}", self.step_every[0], self.step_every[1]) } else { String::new() })
+            self.rx_alloc[0], self.rx_alloc[1], self.bw[0], self.bw[1], self.keepalive.map_or(-1, |k| k as i64), self.latency) + &(match self.kill { Some((op, f, until)) => format!("kill{}.{}.{}", op, f.map_or(-1, |x| x as i64), until), None => String::new() }) + &(if self.step_every != [1, 1] { format!("se{}.{}", self.step_every[0], self.step_every[1]) } else { String::new() })
     }
     pub fn half(&self, side: usize) -> HalfConfig {
         let o = 1 - side;
@@ -229,6 +232,8 @@ pub fn run_lw(cfg: &LwCfg, si: &ScriptInfo, env: &LwEnv, ch: &mut Chooser, mut i
     let mut now = 0u64; let mut seq = 0usize;
     let last_op_round = si.ops.iter().map(|o| o.round).max().unwrap_or(0);
     let mut quiet = 0; let mut step_no = [0u32; 2];
+    // packet ids (per sending side) of the packet named by cfg.kill, learnt when its first fragment is first emitted
+    let mut killed_ids: [std::collections::HashSet<u32>; 2] = [Default::default(), Default::default()];
     // blackout choice (one per execution, counted as one deviation)
     let mut blackout: Option<(usize, u8, usize)> = None;
     if !env.blackouts.is_empty() {
@@ -288,7 +293,8 @@ pub fn run_lw(cfg: &LwCfg, si: &ScriptInfo, env: &LwEnv, ch: &mut Chooser, mut i
                     for f in fs.0 {
                         let parsed = Frame::read(&f);
                         let in_blackout = match blackout { Some((r0, mask, len)) => round >= r0 && round < r0 + len && (mask & (1 << side)) != 0, None => false };
-                        let fate = if in_blackout { Fate::Drop } else if dev && env.fates.len() > 1 { let k = ch.choose(env.fates.len()); if k != 0 { tr.last_dev_round = round; } env.fates[k] } else { Fate::Deliver };
+                        let killed = match (cfg.kill, &parsed) { (Some((op, fr, until)), Some(Frame::DataFrame(df))) if round < until => df.datagrams.iter().any(|dg| fr.map_or(true, |x| x == dg.fragment_id) && killed_ids[side].contains(&dg.sequence_id) || (dg.fragment_id == 0 && identify(si, side, dg) == Some(op) && { killed_ids[side].insert(dg.sequence_id); fr.map_or(true, |x| x == 0) })), _ => false };
+                        let fate = if in_blackout || killed { Fate::Drop } else if dev && env.fates.len() > 1 { let k = ch.choose(env.fates.len()); if k != 0 { tr.last_dev_round = round; } env.fates[k] } else { Fate::Deliver };
                         let em = tr.ems.len();
                         tr.ems.push(Em { side, round, t_ms: now, len: f.len(), frame: parsed, fate, step_no: step_no[side] });
                         let l = latency;
